@@ -368,14 +368,16 @@ REGISTRY = {
     "C07": Prop(
         targets=["PsProps.C07"],
         theorems=[("PsProps.C07", "Ps.Props.C07_extreme_n_rejected"), ("PsProps.C07", "Ps.Props.C07_negation_in_range"),
-                  ("PsProps.C07", "Ps.Props.C07_zero_maps_to_first"), ("PsProps.C07", "Ps.Props.C07_negative_needs_room")],
+                  ("PsProps.C07", "Ps.Props.C07_zero_maps_to_first"), ("PsProps.C07", "Ps.Props.C07_negative_needs_room"),
+                  ("PsProps.C07", "Ps.Props.C07_nth_value"), ("PsProps.C07", "Ps.Props.C07_count_hypothesis")],
         tie=combine(("nth", streams.NTH.tie)), witness=combine_witness(streams.NTH.witness),
         assumptions=ITER_ASSUME + COUNT_ASSUME + ["primePiApprox / nthPrimeApprox / avgPrimeGap (long double / double) are "
                                                   "arbitrary functions in the model; the driver runs two different instantiations"],
-        undischarged=["value theorem for the correction walks (nthPrimePos / nthPrimeNeg = n-th prime after / before start) "
-                      "is tied by the nth stream, not proved yet"],
-        explanation="argument validation (|n| > pi(2^64) incl. INT64_MIN rejected before negation), n = 0 mapping, negative n "
-                    "without room; the walks are tied by correspondence against an independent oracle"),
+        undischarged=["IGen ~ PrimeGenerator and ideal sieve ~ Erat cross-off (the iterator and count layers the walks use)",
+                      "primePiApprox / nthPrimeApprox (RiemannR, long double) are arbitrary 64-bit valued functions in the theorem"],
+        explanation="value theorem: for every n, start and every approximation oracle nth_prime returns the n-th prime after / "
+                    "before start (first prime >= start for n = 0) or fails exactly when it does not exist below 2^64 / above 0; "
+                    "argument validation (|n| > pi(2^64) incl. INT64_MIN rejected before negation)"),
     "C08": Prop(
         targets=["PsProps.C08"],
         theorems=[("PsProps.C08", "Ps.Props.C08_setSieveSize_clamped"), ("PsProps.C08", "Ps.Props.C08_setNumThreads_clamped"),
